@@ -38,6 +38,16 @@ class Val:
         self.tag = tag
 
 
+class FalsyVal(Val):
+    """A perfectly good resource object that is falsy (like an empty container or 0)."""
+
+    def __bool__(self) -> bool:
+        return False
+
+    def __len__(self) -> int:
+        return 0
+
+
 L = list[int]  # a generic alias used as a resource type
 
 TYPES: dict[str, Any] = {"A": A, "B": B, "C": C, "D": D, "L": L}
